@@ -23,4 +23,31 @@ spec fn file_post<ID>(id: ID, fr: ParseFileResult<ID>, defined: Map<String, Reso
             && stable_sorted(pre, out.diagnostics@, |d: Diagnostic| start_key(d)))
     // C11: ascending order of start position
     &&& (fr.ast is Some ==> sorted_by_start(out.diagnostics@))
+    // pipeline order (C07, C10): the method diagnostics are computed last, on the tree that is returned
+    // (after resolution and after oneway propagation) - nothing changes the tree or appends afterwards
+    &&& (fr.ast is Some ==> exists |d1: Seq<Diagnostic>, pre: Seq<Diagnostic>, a: ast::Aidl|
+            #[trigger] appended_ex(d1, pre, methods_expect(methods_of(a), methods_of(a).len() as int))
+            && out.ast == Some(a) && prefix_kept(fr.diagnostics@, d1) && pre.to_multiset() == out.diagnostics@.to_multiset())
+    // pipeline order (C08): the container diagnostics are computed on the kinds of the returned tree (after resolution)
+    &&& (fr.ast is Some ==> exists |d2: Seq<Diagnostic>, d3: Seq<Diagnostic>, ts: Seq<ast::Type>|
+            #[trigger] appended(d2, d3, containers_expect(ts, ts.len() as int))
+            && ts == types_of(out.ast->0) && prefix_kept(fr.diagnostics@, d2))
+}
+
+// oneway propagation changes no type node (so the container diagnostics speak about the returned tree)
+broadcast proof fn lemma_propagation_keeps_types(o: ast::Interface, n: ast::Interface)
+    requires #[trigger] oneway_propagated(o, n)
+    ensures iface_types(n.elements@, n.elements@.len() as int) == iface_types(o.elements@, o.elements@.len() as int)
+{
+    lemma_propagation_keeps_types_upto(o, n, o.elements@.len() as int);
+}
+proof fn lemma_propagation_keeps_types_upto(o: ast::Interface, n: ast::Interface, k: int)
+    requires oneway_propagated(o, n), 0 <= k <= o.elements@.len()
+    ensures iface_types(n.elements@, k) == iface_types(o.elements@, k)
+    decreases k
+{
+    if k > 0 {
+        lemma_propagation_keeps_types_upto(o, n, k - 1);
+        assert(element_propagated(o.elements@[k - 1], n.elements@[k - 1], o.oneway));
+    }
 }
